@@ -32,16 +32,17 @@ META = {
              'by name or DataArray (sometimes only a subset). Oracle: physical depth of original layer L = sign(attribute) x value, '
              'from the generator; the layer tag tells which original layer sits at each output position. distinct = (stream, '
              'convention, axis descriptions, option pair); non-trivial = every case (>= 2 levels)'),
-    'min': {'evaluations': 2500, 'distinct': 800,
-            'classes': {'combo:None/None': 100, 'combo:None/True': 100, 'combo:None/False': 100, 'combo:True/None': 100,
-                        'combo:True/True': 100, 'combo:True/False': 100, 'combo:False/None': 100, 'combo:False/True': 100,
-                        'combo:False/False': 100, 'applied-twice': 900, 'route:ems': 300, 'route:direct': 900,
-                        'sign-flip-demanded': 300, 'order-flip-demanded': 300,
-                        'attr:up': 100, 'attr:down': 100, 'attr:other-case-up': 30, 'attr:other-case-down': 30, 'attr:absent': 50,
-                        'bounds:var': 100, 'bounds:coord': 30, 'bounds:none': 300,
-                        'coordinate:dimension': 100, 'coordinate:non-index': 100, 'coordinate:plain-variable': 50,
-                        'axes:2+': 200, 'two-coordinates-on-one-dimension': 20, 'levels:2': 30, 'levels:7-8': 30,
-                        'subset-of-coordinates': 30, 'variable-with-two-depth-dims': 50, 'input-purity-checked': 900}},
+    'min': {'evaluations': 8000, 'distinct': 3000,
+            'classes': {'combo:None/None': 400, 'combo:None/True': 400, 'combo:None/False': 400, 'combo:True/None': 400,
+                        'combo:True/True': 400, 'combo:True/False': 400, 'combo:False/None': 400, 'combo:False/True': 400,
+                        'combo:False/False': 400, 'applied-twice': 3500, 'route:ems': 500, 'route:direct': 2500,
+                        'sign-flip-demanded': 1200, 'order-flip-demanded': 1200, 'data-variable-reordered-with-coordinate': 3000,
+                        'attr:up': 120, 'attr:down': 120, 'attr:other-case-up': 80, 'attr:other-case-down': 80, 'attr:absent': 70,
+                        'bounds:var': 180, 'bounds:coord': 70, 'bounds:none': 250,
+                        'coordinate:dimension': 150, 'coordinate:non-index': 200, 'coordinate:plain-variable': 100,
+                        'axes:2+': 1500, 'two-coordinates-on-one-dimension': 200, 'levels:2': 70, 'levels:7-8': 120,
+                        'values:mixed': 80, 'values:zero': 70, 'dtype:int64': 50, 'dtype:float32': 60,
+                        'subset-of-coordinates': 250, 'variable-with-two-depth-dims': 500, 'input-purity-checked': 3500}},
     'must_reach': ['emsarray.operations.depth:normalize_depth_variables',
                    'emsarray.conventions._base:Convention.normalize_depth_variables'],
     'assumptions': ['CF reading of the positive attribute is case-insensitive (emsarray\'s own depth_coordinates lower-cases it)',
@@ -224,8 +225,7 @@ def drive(obs, rng, spec, ds, axes, chosen, call, route, family):
         obs.cls('combo:%s/%s' % (a, b))
         obs.cls('route:' + route)
         with quiet_warnings() as log:
-            out = obs.call('normalize_depth_variables(%s, %s) [%s]' % (a, b, route), call, ds, a, b,
-                           mech=lambda exc: CASE_MECH if any(depthgen.case_variant_down(x['attr']) for x in chosen) else None)
+            out = obs.call('normalize_depth_variables(%s, %s) [%s]' % (a, b, route), call, ds, a, b)
         # ---- the input dataset is not modified (checked after every call, so the culprit is known) -----------
         diffs = depthgen.dataset_diff(snap, ds, encoding=True, order=True)
         obs.cls('input-purity-checked')
@@ -241,8 +241,7 @@ def drive(obs, rng, spec, ds, axes, chosen, call, route, family):
         # ---- normalising an already normalised dataset changes nothing ----------------------------------------------
         snap_out = depthgen.snapshot(out)
         with quiet_warnings():
-            again = obs.call('normalize_depth_variables(%s, %s) twice [%s]' % (a, b, route), call, out, a, b,
-                             mech=lambda exc: CASE_MECH if any(depthgen.case_variant_down(x['attr']) for x in chosen) else None)
+            again = obs.call('normalize_depth_variables(%s, %s) twice [%s]' % (a, b, route), call, out, a, b)
         if isinstance(again, Failed):
             continue
         obs.cls('applied-twice')
